@@ -6,7 +6,7 @@ import warnings
 import numpy as np
 from hypothesis import strategies as st
 
-from .. import common, gen as G, graphs as GR
+from .. import common, gen as G, graphs as GR, loopvmap as LV, expr as X
 from ..common import Violation
 from . import c01
 from ._base import standard_worker
@@ -14,7 +14,7 @@ from ._base import standard_worker
 PROP = "C05"
 RULE = (
     "(a) every (graph before, graph after) pair recorded around tracer.optimize while executing generated calls of all "
-    "operation families is interpreted node by node on the call's own tensors: equal outputs, shapes and in-place effects; "
+    "operation families (numpy-family backends, the vmap adapter chain over the loop-vmap double with its nested function graphs, and functions adapted with adapt_with_vmap) is interpreted node by node on the call's own tensors: equal outputs, shapes and in-place effects; "
     "the number of optimiser passes is bounded by nodes+3 and recorded. (b) exhaustive sub-spaces built with einx's own numpy "
     "signature and the numpy backend's optimisation list: all pairs of permutations for ranks 1-5 (15,017 graphs "
     "transpose(transpose(x,p1),p2)), all reshape chains s0->s1->s2 over ordered factorisations (rank<=3, 1-padded) of 12, and "
@@ -89,11 +89,29 @@ def evaluate_captured(case, stats):
     import einx
 
     arrays = G.build_arrays(case)
-    fn = getattr(einx, case["op"])
-    GR.clear_op_cache(fn)
+    if case.get("backend") == LV.NAME:
+        LV.backend()
+    if case.get("adapter") == "vmap":
+
+        class _R:
+            calls = []
+
+        vm = LV.adapt_with_vmap(LV.make_elementary("vm", _R(), [tuple(X.br_shape(o, case["env"])) for o in case["outs"]]))
+
+        def call():
+            with warnings.catch_warnings():
+                warnings.simplefilter("ignore")
+                return vm(case["desc"], *[a.copy() for a in arrays], **case["sizes"], **(case.get("adapter_kwargs") or {}))
+    else:
+        fn = getattr(einx, case["op"])
+        GR.clear_op_cache(fn)
+
+        def call():
+            return c01.call_einx(case, [a.copy() for a in arrays])
+
     with GR.Recorder() as rec:
         try:
-            c01.call_einx(case, [a.copy() for a in arrays])
+            call()
         except GR.NoFixedPoint as e:
             return [Violation("C05|no_fixed_point|captured", f"{case['op']}({case['desc']!r}): {e}")]
         except Exception:  # noqa: BLE001
@@ -102,6 +120,7 @@ def evaluate_captured(case, stats):
     for oc in rec.optimize_calls:
         pre, post = oc["pre"], oc["post"]
         stats.count("captured_pairs")
+        stats.count("captured_pairs:" + ("adapter_vmap" if case.get("adapter") else f"backend_{case.get('backend')}"))
         nodes = GR.count_nodes(pre)
         stats.count("passes", oc["passes"])
         changed = GR.structure_signature(pre) != GR.structure_signature(post)
@@ -400,13 +419,18 @@ def evaluate_wrapper(case, stats):
 
 
 @st.composite
-def c05_case(draw, tier="quick"):
+def c05_case(draw, tier="quick", k=0):
     r = draw(st.integers(0, 5))
     if r == 0:
         return draw(wrapper_case())
     if r <= 2:
         return draw(dag_case())
-    c = draw(G.call_case(quick=(tier == "quick"), backends=[None, "numpy", "numpy.numpylike", "numpy.einsum"]))
+    if draw(st.integers(0, 7)) == 0:
+        c = draw(G.call_case(ops=["vmapop"], quick=True, backends=[None]))
+        c["adapter"] = "vmap"
+        c["adapter_kwargs"] = draw(st.sampled_from([{}, {"scale": 2.5}]))
+        return {"kind": "captured", "call": c}
+    c = draw(G.stratified_case(k, quick=(tier == "quick"), backends=[None, "numpy", "numpy.numpylike", "numpy.einsum", LV.NAME, LV.NAME]))
     return {"kind": "captured", "call": c}
 
 
@@ -431,7 +455,7 @@ def replay_case(case):
 
 
 def worker(k, n, tier, seed, known_buckets, extra):
-    fr = standard_worker(PROP, c05_case(tier), evaluate, k, n, tier, seed, known_buckets, quick_examples=2400, thorough_examples=100000)
+    fr = standard_worker(PROP, c05_case(tier, k), evaluate, k, n, tier, seed, known_buckets, quick_examples=2400, thorough_examples=100000)
     stats = common.Stats()
     viols = run_exhaustive(k, n, tier, stats)
     fr2 = stats.to_fragment()
@@ -453,4 +477,4 @@ def run(tier, seed, known_buckets):
 
 
 def make_strategy(tier, k):
-    return c05_case(tier)
+    return c05_case(tier, k)
